@@ -243,6 +243,18 @@ theorem pending_peer_not_answered (env : Env) (net net' : Net) (a pid : Nat) (p 
   · simp only [if_true, Except.ok.injEq, Prod.mk.injEq] at hf; exact ⟨by rw [← hf.2.2], hf.1.symm⟩
   · simp only [Except.ok.injEq, Prod.mk.injEq] at hf; exact ⟨by rw [← hf.2.2], hf.1.symm⟩
 
+/-- … nor does it do anything on a tick: the connection of a peer that was announced and not yet
+accepted is untouched and sends nothing, and its deadline is inactive.  Together with
+`pending_peer_not_answered`, `unknown_address` (a new peer starts as `Peer.new`) and
+`isolation_step` (calls for other addresses do not touch the slot): nothing is sent to a client
+before the application accepts or rejects it. -/
+theorem pending_peer_silent_on_tick (env : Env) (net net' : Net) (r : Ret) (o : Out) (a pid : Nat)
+    (tok : Bool) (hi : PInv net.peers) (hs : slot net.peers a = some (pid, Peer.new a tok))
+    (ht : step env net .tick = .ok (net', r, o)) :
+    slot net'.peers a = some (pid, Peer.new a tok) ∧ o.for a = {} ∧
+      (Peer.new a tok).conn.needsTick = .inactive :=
+  ⟨(pending_silent_on_tick hi hs ht).1, (pending_silent_on_tick hi hs ht).2, rfl⟩
+
 /-! ## a peer is gone after it was disconnected by either side -/
 
 /-- after `disconnect` / `reject` / `ignore` the peer id is absent and its address unknown again -/
